@@ -21,7 +21,7 @@ TRACE = "SPECIFICATION %(spec)s\nCONSTANTS\n  XtDocumented = %(xt)s\n%(tail)s\nC
 # counts / seeds are digit strings: Nums are written by Digits(), BigNums / OpenNums name texts of CmdLineLattice.NumText
 # (inside / outside the documented range 1..2^32-1); the numeric vectors (LEN = "num") always use every text
 BIG = dict(GChars="{65, 66}", NChars="{120, 121}", Nums="{3}", BigNums='{"007", "2^31", "2^32-1"}', OpenNums='{"2^32"}', WithMalformed="TRUE")
-SMALL = dict(GChars="{65}", NChars="{120}", Nums="{3}", BigNums='{"2^31"}', OpenNums="{}", WithMalformed="TRUE")
+SMALL = dict(GChars="{65}", NChars="{120}", Nums="{3}", BigNums="{}", OpenNums="{}", WithMalformed="TRUE")
 
 
 def enc(b):
